@@ -237,8 +237,9 @@ def r2_predicates(ctx):
                 n += 1
                 kws = {k.arg: k.value for k in c.keywords}
                 fc = kws.get('filter_categories')
-                ok = F.is_name(c.func.value, tok_p) and isinstance(fc, ast.Lambda) and len(fc.args.args) == 1 \
-                    and src(fc.body) == f'{fc.args.args[0].arg} in self.token_categories'
+                cb = F.callable_body(ctx, G.substitute(fc, G.single_assignments(f.node)), f) if fc is not None else None
+                ok = F.is_name(c.func.value, tok_p) and cb is not None and len(cb[0]) == 1 \
+                    and src(cb[1]) == f'{cb[0][0]} in self.token_categories'
                 ctx.check(ok, 'R2', f'{f.module.relpath}:{c.lineno}', f.qualname, 'extended-predicate',
                           f'{ext} exports the token it is given with the predicate `category in self.token_categories`',
                           f'{ext} calls `{src(c)[:100]}`')
@@ -307,13 +308,30 @@ def r3_note_by_note(ctx, sep):
 
 
 def _chord_separator(ctx):
+    """The constant text ChordToken.export puts between two notes: from a join over the notes, or from the accumulation loop
+    (symbolically: on the paths of the loop body the accumulator becomes accumulator [+ SEP] + note.export(...))."""
     ch = ctx.prog.func(f'{N.TOKENS}.ChordToken.export')
     seps = set()
     for n in walk_local(ch.node):
-        if isinstance(n, ast.AugAssign) and isinstance(n.value, ast.Constant) and isinstance(n.value.value, str):
-            seps.add(n.value.value)
-        if isinstance(n, ast.Call) and isinstance(n.func, ast.Attribute) and n.func.attr == 'join' and isinstance(n.func.value, ast.Constant):
+        if isinstance(n, ast.Call) and isinstance(n.func, ast.Attribute) and n.func.attr == 'join' and isinstance(n.func.value, ast.Constant) \
+                and n.args and 'self.notes_tokens' in src(n.args[0]):
             seps.add(n.func.value.value)
+        if isinstance(n, ast.For) and src(n.iter) == 'self.notes_tokens':
+            for sp in symex.sym_paths(n.body, fi=ch):
+                for name, val in sp.env.items():
+                    parts = []
+
+                    def flat(x):
+                        if isinstance(x, ast.BinOp) and isinstance(x.op, ast.Add):
+                            flat(x.left)
+                            flat(x.right)
+                        else:
+                            parts.append(x)
+                    flat(val)
+                    if len(parts) >= 2 and F.is_name(parts[0], name) and any(isinstance(p_, ast.Call) and 'export' in src(p_.func) for p_ in parts):
+                        for p_ in parts[1:]:
+                            if isinstance(p_, ast.Constant) and isinstance(p_.value, str) and p_.value:
+                                seps.add(p_.value)
     if len(seps) != 1:
         raise AnalysisError(f'{ch.loc}: chord separator not recognised: {seps}')
     return seps.pop()
